@@ -29,50 +29,50 @@ func init() {
 }
 
 var c03Sigs = map[string][]string{
-"isHeadersQualified": {
+	"isHeadersQualified": {
 		"false <= !(*filter.FilterNode).isHeaderValueValid(param:node, next(range(makemap))#1, next(range(makemap))#2, param:APIStream) ; !(builtin.len((public-types.FilterI).GetAllowedHeaders((internal-types.FlowI).GetFilter(param:flow))) == 0) ; !(public-types.StreamType).IsResponseType((public-types.APIStreamI).GetType(param:APIStream))",
 		"true <= !(builtin.len((public-types.FilterI).GetAllowedHeaders((internal-types.FlowI).GetFilter(param:flow))) == 0) ; !(public-types.StreamType).IsResponseType((public-types.APIStreamI).GetType(param:APIStream))",
 		"true <= !(public-types.StreamType).IsResponseType((public-types.APIStreamI).GetType(param:APIStream)) ; (builtin.len((public-types.FilterI).GetAllowedHeaders((internal-types.FlowI).GetFilter(param:flow))) == 0)",
 		"true <= (public-types.StreamType).IsResponseType((public-types.APIStreamI).GetType(param:APIStream))",
-},
-"isStatusCodeQualified": {
+	},
+	"isStatusCodeQualified": {
 		"false <= !(builtin.len((public-types.FilterI).GetAllowedStatusCodes((internal-types.FlowI).GetFilter(param:flow))) == 0) ; !(public-types.StreamType).IsRequestType((public-types.APIStreamI).GetType(param:APIStream))",
 		"true <= !(builtin.len((public-types.FilterI).GetAllowedStatusCodes((internal-types.FlowI).GetFilter(param:flow))) == 0) ; !(public-types.StreamType).IsRequestType((public-types.APIStreamI).GetType(param:APIStream)) ; ((public-types.FilterI).GetAllowedStatusCodes((internal-types.FlowI).GetFilter(param:flow))[i] == (public-types.TransactionI).GetStatus((public-types.APIStreamI).GetResponse(param:APIStream)))",
 		"true <= !(public-types.StreamType).IsRequestType((public-types.APIStreamI).GetType(param:APIStream)) ; (builtin.len((public-types.FilterI).GetAllowedStatusCodes((internal-types.FlowI).GetFilter(param:flow))) == 0)",
 		"true <= (public-types.StreamType).IsRequestType((public-types.APIStreamI).GetType(param:APIStream))",
-},
-"isMethodQualified": {
+	},
+	"isMethodQualified": {
 		"false <= ",
 		"true <= ((public-types.FilterI).GetSupportedMethods((internal-types.FlowI).GetFilter(param:flow))[i] == (public-types.APIStreamI).GetMethod(param:APIStream))",
 		"true <= (builtin.len((public-types.FilterI).GetAllowedMethods((internal-types.FlowI).GetFilter(param:flow))) == 0) ; (internal-types.FlowI).IsUserFlow(param:flow)",
-},
-"isQueryParamsQualified": {
+	},
+	"isQueryParamsQualified": {
 		"false <= !((*public-types.KeyValue).GetParamValue(local:data) == nil) ; !(public-types.StreamType).IsResponseType((public-types.APIStreamI).GetType(param:APIStream)) ; !(public-types.TransactionI).DoesQueryParamValueMatch((public-types.APIStreamI).GetRequest(param:APIStream), local:data.Key, (*public-types.ParamValue).GetString((*public-types.KeyValue).GetParamValue(local:data))) ; (public-types.TransactionI).DoesQueryParamExist((public-types.APIStreamI).GetRequest(param:APIStream), local:data.Key)",
 		"false <= !(public-types.StreamType).IsResponseType((public-types.APIStreamI).GetType(param:APIStream)) ; !(public-types.TransactionI).DoesQueryParamExist((public-types.APIStreamI).GetRequest(param:APIStream), local:data.Key)",
 		"true <= !(public-types.StreamType).IsResponseType((public-types.APIStreamI).GetType(param:APIStream))",
 		"true <= (public-types.StreamType).IsResponseType((public-types.APIStreamI).GetType(param:APIStream))",
-},
-"isHeaderValueValid": {
+	},
+	"isHeaderValueValid": {
 		"false <= ",
 		"true <= (public-types.APIStreamI).DoesHeaderValueMatch(param:APIStream, param:headerKey, param:headerValues[i])",
-},
-"validate": {
+	},
+	"validate": {
 		"false <= !(*filter.FilterNode).isHeadersQualified(param:node, param:flow, param:apiStream)",
 		"false <= !(*filter.FilterNode).isMethodQualified(param:node, param:flow, param:apiStream) ; (*filter.FilterNode).isHeadersQualified(param:node, param:flow, param:apiStream) ; (*filter.FilterNode).isStatusCodeQualified(param:node, param:flow, param:apiStream)",
 		"false <= !(*filter.FilterNode).isQueryParamsQualified(param:node, param:flow, param:apiStream) ; (*filter.FilterNode).isHeadersQualified(param:node, param:flow, param:apiStream) ; (*filter.FilterNode).isMethodQualified(param:node, param:flow, param:apiStream) ; (*filter.FilterNode).isStatusCodeQualified(param:node, param:flow, param:apiStream)",
 		"false <= !(*filter.FilterNode).isStatusCodeQualified(param:node, param:flow, param:apiStream) ; (*filter.FilterNode).isHeadersQualified(param:node, param:flow, param:apiStream)",
 		"true <= (*filter.FilterNode).isHeadersQualified(param:node, param:flow, param:apiStream) ; (*filter.FilterNode).isMethodQualified(param:node, param:flow, param:apiStream) ; (*filter.FilterNode).isQueryParamsQualified(param:node, param:flow, param:apiStream) ; (*filter.FilterNode).isStatusCodeQualified(param:node, param:flow, param:apiStream)",
-},
-"isFlowValid": {
+	},
+	"isFlowValid": {
 		"(*filter.FilterNode).validate(param:node, param:flow, param:apiStream) <= !(public-types.FilterI).IsExpressionFilter((internal-types.FlowI).GetFilter(param:flow)) ; (public-types.FilterI).ShouldAllowSample((internal-types.FlowI).GetFilter(param:flow))",
 		"(*filter.FilterNode).validateExpr(param:node, param:flow, param:apiStream) <= (public-types.FilterI).IsExpressionFilter((internal-types.FlowI).GetFilter(param:flow)) ; (public-types.FilterI).ShouldAllowSample((internal-types.FlowI).GetFilter(param:flow))",
 		"false <= !(public-types.FilterI).ShouldAllowSample((internal-types.FlowI).GetFilter(param:flow))",
-},
-"validateExpr": {
+	},
+	"validateExpr": {
 		"false <= !((public-types.APIStreamI).JSONPathQuery(param:apiStream, phi[(public-types.FilterI).GetReqExpressions((internal-types.FlowI).GetFilter(param:flow)) | (public-types.FilterI).GetResExpressions((internal-types.FlowI).GetFilter(param:flow))][i])#1 != nil) ; (builtin.len((public-types.APIStreamI).JSONPathQuery(param:apiStream, phi[(public-types.FilterI).GetReqExpressions((internal-types.FlowI).GetFilter(param:flow)) | (public-types.FilterI).GetResExpressions((internal-types.FlowI).GetFilter(param:flow))][i])#0) == 0)",
 		"false <= !(public-types.StreamType).IsRequestType((public-types.APIStreamI).GetType(param:apiStream)) ; !(public-types.StreamType).IsResponseType((public-types.APIStreamI).GetType(param:apiStream))",
 		"true <= ",
-},
+	},
 }
 
 func runC03(w *World, r *Report) {
@@ -215,7 +215,10 @@ func runC03(w *World, r *Report) {
 		gf := CallsIn(ef, false, "FilterTree).GetFlow", "FilterTreeI).GetFlow")
 		ok := len(gf) == 1
 		if ok {
-			isFound := func(v ssa.Value) bool { e, isE := v.(*ssa.Extract); return isE && e.Tuple == gf[0].Value() && e.Index == 1 }
+			isFound := func(v ssa.Value) bool {
+				e, isE := v.(*ssa.Extract)
+				return isE && e.Tuple == gf[0].Value() && e.Index == 1
+			}
 			nf := 0
 			for _, alt := range ReturnAlts(ef, 0) {
 				if condsHave(alt.Conds, false, isFound) {
